@@ -210,13 +210,22 @@ def run(ctx):
     f = fn["add_source_sink_edges"]
     cc = _edge_calls(f)
     okd = {"src": False, "snk": False}
+    def role(e):
+        """'SOURCE' / 'SINK' when the endpoint is the node of that type
+        (nodes_by_type[NodeType.X][0], whatever the local is called)."""
+        t = ctx.norm.xtext(f, e).replace(" ", "")
+        for r in ("SOURCE", "SINK"):
+            if f"nodes_by_type[NodeType.{r}]" in t:
+                return r
+        return None
+
     for c in cc:
-        a, b = ast.unparse(c.args[0]), ast.unparse(c.args[1])
+        a, b = ctx.norm.xtext(f, c.args[0]), ctx.norm.xtext(f, c.args[1])
         if _etype(c) != "CONJUNCTIVE":
             chk.violation("R16.b", f, c, f"source/sink edge typed `{_etype(c)}`", loc=f.loc(c))
-        if a == "source" and b.endswith("[0]"):
+        if role(c.args[0]) == "SOURCE" and b.endswith("[0]"):
             okd["src"] = True
-        elif b == "sink" and a.endswith("[-1]"):
+        elif role(c.args[1]) == "SINK" and a.endswith("[-1]"):
             okd["snk"] = True
         else:
             chk.violation("R16.b", f, c, f"source/sink edge {a} -> {b}: must be source -> first operation and last operation -> sink", loc=f.loc(c))
@@ -369,7 +378,15 @@ def _solved_pairs(ctx, sg, arc):
     if len(loops) != 2 or not ctx.norm.xtext(sg, loops[1].iter).endswith("schedule.schedule"):
         raise AnalysisError("build_solved_disjunctive_graph: machine-sequence loops not recognised")
     inner = loops[0]
-    it = ctx.norm.xtext(sg, inner.iter).replace(" ", "")
+    import re as _re
+
+    MS = loops[1].target.id if isinstance(loops[1].target, ast.Name) else "machine_schedule"
+
+    def C(t):
+        """the machine-sequence loop variable spelled canonically"""
+        return _re.sub(r"(?<![A-Za-z0-9_])" + _re.escape(MS) + r"(?![A-Za-z0-9_])", "machine_schedule", t)
+
+    it = C(ctx.norm.xtext(sg, inner.iter).replace(" ", ""))
     defs = ctx.flow.defs(sg)
     ok = False
     if it == "enumerate(machine_schedule)":
@@ -377,12 +394,12 @@ def _solved_pairs(ctx, sg, arc):
         cur = inner.target.elts[1].id
         # guard `if i + 1 >= len(machine_schedule): break` and next = machine_schedule[i + 1]
         guard = any(
-            isinstance(n, ast.If) and ast.unparse(n.test).replace(" ", "") in (f"{iv}+1>=len(machine_schedule)", f"{iv}>=len(machine_schedule)-1", f"{iv}+1==len(machine_schedule)")
+            isinstance(n, ast.If) and C(ast.unparse(n.test).replace(" ", "")) in (f"{iv}+1>=len(machine_schedule)", f"{iv}>=len(machine_schedule)-1", f"{iv}+1==len(machine_schedule)")
             and any(isinstance(x, (ast.Break, ast.Continue)) for x in n.body)
             for n in inner.body
         )
         nxt = [d for d in defs.of(b.split(".")[0]) if d[0] == "value"]
-        nxt_ok = len(nxt) == 1 and ast.unparse(nxt[0][1]).replace(" ", "") == f"machine_schedule[{iv}+1]"
+        nxt_ok = len(nxt) == 1 and C(ast.unparse(nxt[0][1]).replace(" ", "")) == f"machine_schedule[{iv}+1]"
         direct = isinstance(sg.module.parents.get(sg.module.parents.get(arc)), ast.For)
         ok = guard and nxt_ok and a.startswith(cur + ".") and direct
     elif it.startswith("range(") and isinstance(inner.target, ast.Name) and isinstance(inner.iter, ast.Call):
@@ -433,12 +450,13 @@ def _solved_pairs(ctx, sg, arc):
 
         sa, sb = seq_of(arc.args[0]), seq_of(arc.args[1])
         direct = isinstance(sg.module.parents.get(sg.module.parents.get(arc)), ast.For)
-        if sa and sb and sa[0] == sb[0] == "machine_schedule" and direct:
+        if sa and sb and C(sa[0]) == C(sb[0]) == "machine_schedule" and direct:
             n_txt = [f"len({t})" for t in ("machine_schedule",)]
             lens = {"len(machine_schedule)"} | {
                 f"len({ast.unparse(t)})" for n in own_nodes(sg.node) if isinstance(n, ast.Assign) and isinstance(n.value, ast.ListComp)
-                and len(n.value.generators) == 1 and ast.unparse(n.value.generators[0].iter) == "machine_schedule" for t in n.targets
+                and len(n.value.generators) == 1 and C(ast.unparse(n.value.generators[0].iter)) == "machine_schedule" for t in n.targets
             }
+            rargs = [C(r) for r in rargs]
             low = (len(rargs) == 1 and any(rargs[0] == f"{ln}-1" for ln in lens) and (sa[1], sb[1]) == (iv, f"{iv}+1"))
             high = (len(rargs) == 2 and rargs[0] == "1" and rargs[1] in lens and (sa[1], sb[1]) == (f"{iv}-1", iv))
             ok = low or high
